@@ -149,7 +149,7 @@ def render(prog, files=None):
         if k == "group":
             lines.append(ind + st["name"])
         elif k == "def":
-            t = st["type"] + (render_dims(st["dims"]) if st.get("dims") else "")
+            t = st.get("tname", st["type"]) + (render_dims(st["dims"]) if st.get("dims") else "")
             s = ind + st["name"] + " " + t
             if st["val"] is not None:
                 s += " = " + render_value(st["val"], st["type"])
@@ -428,8 +428,10 @@ def satisfied(env, node):
     if node.value is None:
         if node.declared:
             bad.append("declaration")
-        elif node.options or node.cond is not None or node.fmt is not None:
-            raise Undemanded("constraints of an empty (none) value")
+        elif node.options:
+            bad.append("options")        # none is not one of the listed options
+        elif node.cond is not None or node.fmt is not None:
+            raise Undemanded("condition / format of an empty (none) value")
         return bad
     if node.options:
         if isinstance(node.value, list):
@@ -504,8 +506,6 @@ def _resolve(env, val, typ, host_unit):
                 raise Undemanded("injection from a declared-only node / slice or array of an empty value")
             return None, (host_unit if host_unit else src.unit)      # the current value is `none`
         v = apply_slice(_cp(src.value), r.get("slice"))
-        if isinstance(v, str) and v == "":
-            raise Undemanded("empty string")
         return v, (host_unit if host_unit else src.unit)
     return leaf(val, typ), host_unit
 
